@@ -177,7 +177,11 @@ def check_guards(project: Project, rep):
                 rep.unmodelled("AR-GUARD", add, add.node, f"{nm}.__add__: path condition of the sum not evaluable ({ex})")
                 continue
             leak = [ev for mism, _, ev in verdicts if mism]
-            if leak and any(l["pos"] <= I.log.index(ev) for ev in leak for l in I.lossy):
+            # only what is lost while the guards run matters (the operator itself, the base class, private guard helpers) —
+            # not what happens inside the constructor of the result, which is evaluated in the return statement
+            def _guard_frame(fi_):
+                return fi_ is not None and (fi_.name == "__add__" or (fi_.name.startswith("_") and not fi_.name.startswith("__")))
+            if leak and any(l["pos"] <= I.log.index(ev) and _guard_frame(l["fi"]) for ev in leak for l in I.lossy):
                 rep.unmodelled("AR-GUARD", add, leak[0]["node"], f"{nm}.__add__: the guards could not be followed exactly "
                                                                  f"({I.lossy[0]['why']})")
             elif leak:
@@ -614,6 +618,19 @@ def run(project: Project, rep, tier: str):
     check_pad_snap(project, rep)
     check_lincomb(project, rep)
     check_arm_consistency(project, rep)
+    # AR-DEFAULT: the grid a re-sampling is asked for — `None` means "derive it from the inputs"; a truth test would also
+    # replace an explicit 0
+    from .common import none_vs_truthiness
+    bad, n_keys = none_vs_truthiness(project, "persim.landscapes.tools.")
+    for (owner, name), none_sites, truthy_sites in bad:
+        fi_, node_ = truthy_sites[0]
+        rep.refuted("AR-DEFAULT", fi_, node_,
+                    f"`{name}` uses None as 'not given' but is truth-tested (`{ast.unparse(node_)}`): a requested grid bound 0 is "
+                    f"replaced by the tightest value of the inputs, so landscapes are re-sampled onto a grid other than the one "
+                    f"requested", construct=f"{owner}: truth test of {name}")
+    if not bad:
+        rep.discharged("AR-DEFAULT", None, None, f"{n_keys} grid parameters of the landscape tools use None as the 'not given' "
+                                                 f"marker; none is truth-tested", nontrivial=False)
     for rn, n in (("AR-EFFECT", 30), ("AR-OWN", 30), ("AR-LAZY", 4), ("AR-GUARD", 9), ("AR-UNARY", 11), ("AR-PAD", 5), ("AR-SNAP", 2), ("AR-LC", 1)):
         rep.floor(rn, n)
     for t in ("numpy.pad", "numpy.interp", "itertools.zip_longest"):
